@@ -54,14 +54,16 @@ type ThreadInfo struct {
 
 // Config of one execution.
 type Config struct {
-	Prefix       []int
-	MaxSteps     int
-	Trace        bool // keep a human readable log of every step
-	AtomicPoints bool // sync/atomic operations are scheduling points
-	NoPoison     bool // do not poison []byte handed to a Pool
-	NoStalls     bool // do not offer the "stall the default thread" alternative
-	Names        bool // resolve the names of library threads from their call site (slow; always on when tracing)
-	LibPrefix    string
+	Prefix         []int
+	MaxSteps       int
+	Trace          bool // keep a human readable log of every step
+	AtomicPoints   bool // sync/atomic operations are scheduling points
+	NoPoison       bool // do not poison []byte handed to a Pool
+	NoStalls       bool // do not offer the "stall the default thread" alternative
+	UnlockPoints   bool // releasing a Mutex / RWMutex is followed by a scheduling point: the plain reads and writes a thread does right after leaving a critical section can then interleave with other threads
+	UnlockedWrites bool // a struct-field write by a thread that holds no lock is a scheduling point (see SharedWrite)
+	Names          bool // resolve the names of library threads from their call site (slow; always on when tracing)
+	LibPrefix      string
 }
 
 // Result of one execution.
@@ -99,6 +101,8 @@ type thread struct {
 	exited  bool
 	gone    chan struct{}
 	demoted int // > 0: stalled (order of demotion); scheduled only when no other thread can run
+	xl      int // exclusive locks (Mutex.Lock, RWMutex.Lock) currently held by this thread
+	rl      int // read locks (RWMutex.RLock) currently held by this thread
 }
 
 type sched struct {
@@ -443,6 +447,26 @@ func Yield() {
 		return
 	}
 	s.point("yield", nil, nil)
+}
+
+// SharedWrite is called by instrumented code before a statement that writes a struct field.  A
+// critical section entered with RLock can run concurrently with other such sections, so a field
+// write inside one is a step other readers can interleave with: it is a scheduling point while the
+// running thread holds a read lock, and nothing otherwise.  With Config.UnlockedWrites a field
+// write by a thread that holds no lock at all is a scheduling point too (costly: constructors and
+// per-call bookkeeping write many fields without a lock).
+func SharedWrite() {
+	s := S
+	if s == nil || reaping {
+		return
+	}
+	if s.cur == nil {
+		return
+	}
+	if s.cur.rl == 0 && (s.cur.xl > 0 || !s.cfg.UnlockedWrites) {
+		return
+	}
+	s.point("write under read lock", nil, nil)
 }
 
 // Block parks the caller until pred holds (harness / environment model use).
